@@ -1,6 +1,7 @@
 import MakoModel.Printer.LemmasCore
 import MakoModel.Printer.LemmasWarn
 import MakoModel.Printer.LemmasCodegen
+import MakoModel.Generated.TbCfg
 /-!
 # C12 – runtime tracebacks and compile warnings map to template lines
 
@@ -385,16 +386,58 @@ theorem frames_classified_all (reg : Tb.Registry) (fs : List Tb.Frame) (rs : Lis
     (h : Tb.records reg fs = some rs) : rs.map (·.frame) = fs :=
   Tb.records_frames reg fs rs h
 
-example : Tb.records [("m".toList, ⟨[1, 1, 3], ["a".toList, "b".toList, "c".toList], "t.html".toList⟩)]
+example : Tb.records [("m".toList, ⟨[1, 1, 3], ["a".toList, "b".toList, "c".toList], "t.html".toList, []⟩)]
     [⟨"app.py".toList, 10, "f".toList, "x".toList⟩, ⟨"m".toList, 3, "render_body".toList, "w".toList⟩]
     = some [⟨⟨"app.py".toList, 10, "f".toList, "x".toList⟩, none⟩,
             ⟨⟨"m".toList, 3, "render_body".toList, "w".toList⟩, some ("t.html".toList, 3, some "c".toList)⟩] := by
   decide
 
+/-! The per-file cache `mods` of `_init` either keeps the template source or not (`Tb.recordSources keeps`).
+Which one holds for /repo is the regenerated constant `Generated.TbCfg.modsCacheKeepsSource`
+(tools/regen_tbcfg.py reads the tuple stored in / unpacked from `mods[filename]`); the stream
+`corr.richtraceback_record_source` compares that variant with the real function. -/
+
+/-- named obligation on the regenerated constant: the cache keeps the source (repair bcd673d).  Reverting
+    the repair makes the constant `false` and this theorem – and with it the next one – fail. -/
+theorem mods_cache_keeps_source : Generated.TbCfg.modsCacheKeepsSource = true := by decide
+
+/-- **for /repo**: every record of every traceback – any number of templates, in any order, alternating
+    (A, B, A) included – carries its own template's source, and so does `RichTraceback.source` -/
+theorem record_source_is_own_template (reg : Tb.Registry) (fs : List Tb.Frame) :
+    Tb.recordSources Generated.TbCfg.modsCacheKeepsSource reg fs
+      = fs.map fun f => (reg.lookup f.filename).map (·.source) := by
+  rw [mods_cache_keeps_source]
+  exact Tb.sourcesFrom_keeps reg ([], none) fs (by intro n own h; simp at h)
+
+example : Tb.recordSources true [("A".toList, ⟨[1], [], "a.html".toList, "src A".toList⟩),
+                      ("B".toList, ⟨[1], [], "b.html".toList, "src B".toList⟩)]
+      [⟨"A".toList, 1, [], []⟩, ⟨"B".toList, 1, [], []⟩, ⟨"A".toList, 1, [], []⟩]
+    = [some "src A".toList, some "src B".toList, some "src A".toList] := by decide
+
+/-- regression form – the behaviour BEFORE bcd673d (`keeps := false`, not /repo's code any more): with a
+    cache that does not keep the source the statement holds only while one template module occurs … -/
+theorem record_source_prefix_behaviour_single_template (reg : Tb.Registry) (fs : List Tb.Frame)
+    (hone : ∀ f ∈ fs, ∀ g ∈ fs, reg.lookup f.filename ≠ none → reg.lookup g.filename ≠ none →
+      f.filename = g.filename) :
+    Tb.recordSources false reg fs = fs.map fun f => (reg.lookup f.filename).map (·.source) :=
+  Tb.sourcesFrom_single reg ([], none) fs (by intro n own h; simp at h) hone (by intro n own h; simp at h)
+
+example : Tb.recordSources false [("A".toList, ⟨[1], [], "a.html".toList, "src A".toList⟩)]
+    [⟨"A".toList, 1, [], []⟩, ⟨"rt.py".toList, 9, [], []⟩, ⟨"A".toList, 1, [], []⟩]
+    = [some "src A".toList, none, some "src A".toList] := by decide
+
+/-- … and (pre-fix behaviour, `keeps := false`) alternating templates A, B, A gave the second A record B's
+    source – what a revert of bcd673d brings back -/
+theorem prefix_behaviour_alternating_templates :
+    Tb.recordSources false [("A".toList, ⟨[1], [], "a.html".toList, "src A".toList⟩),
+                      ("B".toList, ⟨[1], [], "b.html".toList, "src B".toList⟩)]
+      [⟨"A".toList, 1, [], []⟩, ⟨"B".toList, 1, [], []⟩, ⟨"A".toList, 1, [], []⟩]
+    = [some "src A".toList, some "src B".toList, some "src B".toList] := by decide
+
 /-- what a template line of **0** in the map does (finding F9): the record shows the *last* line of
     the template as the source of line 0, and the search for `.lineno` skips the record -/
 theorem line_zero_counterexample :
-    Tb.rewrite [("m".toList, ⟨[0], ["first".toList, "last".toList], "t".toList⟩)]
+    Tb.rewrite [("m".toList, ⟨[0], ["first".toList, "last".toList], "t".toList, []⟩)]
       ⟨"m".toList, 1, "f".toList, "l".toList⟩
       = some ⟨⟨"m".toList, 1, "f".toList, "l".toList⟩, some ("t".toList, 0, some "last".toList)⟩ ∧
     Tb.pickLine [⟨⟨"app.py".toList, 1, [], []⟩, none⟩,
